@@ -126,7 +126,14 @@ fn gen(seed: u64) -> Params {
             };
             let k = r.range(1, 4) as usize;
             let chunk = (0..k).map(|_| *r.pick(&[1usize, 7, 64, 500, 1024, 4096, 8192, 20_000])).collect();
-            let rbuf = (0..k).map(|_| *r.pick(&[1usize, 3, 50, 512, 1500, 4096, 16_384])).collect();
+            let rbuf: Vec<usize> = (0..k).map(|_| *r.pick(&[1usize, 3, 50, 512, 1500, 4096, 16_384])).collect();
+            // bound the number of syscalls of a connection (a 33 KB stream written byte by byte is
+            // 33 000 writes, about 1.5 M schedule points: it ran into the step budget in the
+            // thorough tier and was reported as a livelock - a limit of the harness, not a finding)
+            let chunk: Vec<usize> = chunk;
+            let avg_w = (chunk.iter().sum::<usize>() / chunk.len()).max(1);
+            let avg_r = (rbuf.iter().sum::<usize>() / rbuf.len()).max(1);
+            let bytes = bytes.min(2500 * avg_w).min(2500 * avg_r);
             let duplex = transport != Transport::UnixRawWriter && transport != Transport::UnixRawReader && r.chance(1, 3);
             Conn {
                 transport,
